@@ -699,6 +699,14 @@ vs_join(int h)
 }
 
 void
+vs_dump(const char *why)
+{
+	pthread_mutex_lock(&G);
+	dump(why);
+	pthread_mutex_unlock(&G);
+}
+
+void
 vs_stats(long *steps, long *sw, long *pre)
 {
 	*steps = nsteps;
